@@ -474,6 +474,17 @@ def run_light(exe, files, nlines):
     return sum(1 for a, b in zip(mo, ro) if b != "skip" and a != b), sum(1 for b in ro if b.startswith("reject"))
 
 
+def run_suite_ids(exe, files, nlines):
+    """suite id (cipher/hash dispatch-table indices): translated set_cipher_suite_id vs the library's set_suite_id."""
+    m = shard_run(lambda f: ["sh", "-c", "%s suite < %s" % (DRIVER, f)], files, common.NCPU)
+    r = shard_run(lambda f: [exe, "i", f], files, common.NCPU)
+    mo = [l.strip() for rc, o, e in m for l in o]
+    ro = [l.strip() for rc, o, e in r for l in o]
+    if len(mo) != nlines or len(ro) != nlines:
+        raise RuntimeError("suite-id tie: %d / %d lines for %d cases" % (len(mo), len(ro), nlines))
+    return sum(1 for a, b in zip(mo, ro) if a != b), len(set(ro))
+
+
 def run_real_a(exe, files, nlines):
     res = shard_run(lambda f: [exe, "a", f], files, common.NCPU)
     out = []
@@ -726,6 +737,9 @@ def main(tier, seed):
     light_diff, light_rej = run_light(exe, files, len(lines))
     if light_diff:
         broken.append("tie (a-light): extracted is_job_invalid_light disagrees with the real function on %d descriptors" % light_diff)
+    suite_diff, suite_distinct = run_suite_ids(exe, files, len(lines))
+    if suite_diff:
+        broken.append("tie (a-suite): translated set_cipher_suite_id disagrees with IMB_MGR.set_suite_id on %d descriptors" % suite_diff)
 
     # ---------------- (a) translator validation + static property verdict
     stats = collections.Counter()
@@ -779,6 +793,11 @@ def main(tier, seed):
     pm = sh([exe, "m"], env=common.lib_env(), timeout=300)
     mlines = [l for l in pm.stdout.splitlines() if l.startswith("U ")]
     mfail = [l for l in mlines if not l.rstrip().endswith("OK")]
+    ps = sh([exe, "s"], env=common.lib_env(), timeout=600)
+    slines = [l for l in ps.stdout.splitlines() if l.startswith("S ")]
+    sfail = [l for l in slines if not l.rstrip().endswith("OK")]
+    if ps.returncode != 0 or not slines:
+        broken.append("harness mode s did not run: rc=%d %s" % (ps.returncode, ps.stderr[-200:]))
     pd = sh([exe, "d"], env=common.lib_env(), timeout=900)
     dlines = [l for l in pd.stdout.splitlines() if l.startswith("D ")]
     dfail = [l for l in dlines if not l.rstrip().endswith("OK")]
@@ -845,6 +864,12 @@ def main(tier, seed):
         what = re.sub(r"[^a-z0-9]+", "-", l.split(" ", 2)[2].split(" ret=")[0].strip().lower()).strip("-")
         findings.setdefault("M:" + what, ("C12-api-sequence-" + what, "API sequence check failed: " + l,
                                           {"property": PID, "kind": "misuse", "line": l}, 1))
+    for l in sfail:
+        m = re.search(r"case=(\w+)", l)
+        what = "burst-suite-id-" + (m.group(1) if m else "setup")
+        findings.setdefault("S:" + what, ("C12-" + what, "checked burst with stale suite id: " + l,
+                                          {"property": PID, "kind": "suite", "line": l,
+                                           "how": "k12_validate s: burst of n jobs, job at pos carries suite_id words of another valid suite (wr = cipher word, rw = hash word, ww = both)"}, len([x for x in sfail if what[15:] in x])))
     for l in dfail:
         w = l.split()
         findings.setdefault("DA:" + w[3] + ":" + w[4], ("C12-direct-api-" + w[3] + "-" + w[4], "direct API: " + l,
@@ -866,6 +891,9 @@ def main(tier, seed):
                           "ok_rejected": bstats["ok-rejected"], "ok_accepted": bstats["ok-accepted"], "fail": bstats["fail"],
                           "skipped": bstats["skipped-unsafe-view"]},
         "burst_misuse": {"rows": len(mlines), "fail": len(mfail)},
+        "burst_suite_id": {"rows": len(slines), "fail": len(sfail),
+                           "cases": dict(collections.Counter(re.search(r"case=(\w+)", l).group(1) for l in slines if "case=" in l))},
+        "suite_id_tie": {"descriptors": len(lines), "model_ne_code": suite_diff, "distinct_ids": suite_distinct},
         "direct_api": {"rows": len(dlines), "fail": len(dfail), "summary": [l for l in pd.stdout.splitlines() if l.startswith("D-SUMMARY")]},
         "translators": tmsgs, "times_s": times,
         "samples": [{"tag": list(tags[i]), "view": lines[i], "model": model[i][0], "catalogue": model[i][1], "real": real[i]}
@@ -893,9 +921,9 @@ def main(tier, seed):
     elif broken:
         res.coverage["broken_obligations"] = broken
         log("broken obligations (a failing input WAS found, see violations): " + "; ".join(broken))
-    log("C12 %s: %d descriptors, model!=code %d, api cases %d (fail %d), misuse %d/%d, direct %d/%d, %.1fs" % (
+    log("C12 %s: %d descriptors, model!=code %d, api cases %d (fail %d), misuse %d/%d, burst-suite %d/%d, direct %d/%d, %.1fs" % (
         tier, stats["evaluated"], len(model_ne_code), len(bidx), bstats["fail"], len(mlines) - len(mfail), len(mlines),
-        len(dlines) - len(dfail), len(dlines), time.time() - t0))
+        len(slines) - len(sfail), len(slines), len(dlines) - len(dfail), len(dlines), time.time() - t0))
     return res.finish()
 
 
@@ -905,6 +933,12 @@ def replay(path):
     r = json.load(open(path))
     common.build_lib()
     exe = build_harness()
+    if r.get("kind") == "suite":
+        p = sh([exe, "s"], env=common.lib_env(), timeout=600)
+        key = " ".join(r["line"].split()[1:7])     # manager, n, pos, x, stale, case
+        now = [l for l in p.stdout.splitlines() if key in l]
+        print("\n".join(now))
+        return 1 if (not now or any(not l.rstrip().endswith("OK") for l in now)) else 0
     if r.get("kind") in ("misuse", "direct"):
         mode = "m" if r["kind"] == "misuse" else "d"
         p = sh([exe, mode], env=common.lib_env(), timeout=900)
